@@ -71,4 +71,40 @@ def task_stateless(task, rec, out):
             out["findings"] += fs
 
 
-KINDS = {"stateless": task_stateless}
+def task_history(task, rec, out):
+    """C03/C05: bounded model checking over symbolic input histories of K steps"""
+    stmts = task["stmts"]
+    K = task.get("K", 4)
+    for build in task["builds"]:
+        tag = f"{build['tag']}/full"
+        r = _compile(stmts, build, "full")
+        _note_compile(out, tag, r)
+        if not r.get("ok"):
+            continue
+        sess = engine.Session(stmts, r["json"])
+        fs, S = engine.check_history(sess, rec, f"{task['key']}/{tag}", K, bool_inputs=task.get("bool_inputs", ()), outputs=task.get("outputs"))
+        out.setdefault("hold_ticks", []).append(S)
+        for f in fs:
+            f["src"] = r["src"]
+            f["build"] = build
+        out["findings"] += fs
+
+
+def task_loop(task, rec, out):
+    """C04: value(t+L) = f(value(t)) for some L, all held inputs, all ticks from power-on (bounded)"""
+    stmts = task["stmts"]
+    for build in task["builds"]:
+        tag = f"{build['tag']}/full"
+        r = _compile(stmts, build, "full")
+        _note_compile(out, tag, r)
+        if not r.get("ok"):
+            continue
+        sess = engine.Session(stmts, r["json"])
+        fs = engine.check_loop(sess, rec, f"{task['key']}/{tag}", readers=task.get("readers", ()), rounds=task.get("rounds", 3))
+        for f in fs:
+            f["src"] = r["src"]
+            f["build"] = build
+        out["findings"] += fs
+
+
+KINDS = {"stateless": task_stateless, "history": task_history, "loop": task_loop}
